@@ -12,7 +12,8 @@ CHECK = {
     "level_text": "Held on the executions observed: a grid of write-buffer sizes {1,256,1024,4096,65536} x compression {off, levels -2..9} x six write APIs x the size classes "
                   "around 0/125/126/65535/65536 and the buffer size and its multiples (plus 1 MiB / 4 MiB), all 2-partitions of selected sizes, thousands (quick) to "
                   "~150 000 (thorough) random sessions mixing APIs, partitions, reader APIs, compression toggling and pings, and 60 / 3 000 loopback sessions through the real "
-                  "opening handshake. Not a proof: sizes, buffer sizes and API interleavings outside the generated ones are not covered; one goroutine drives each in-memory session.",
+                  "opening handshake, hand-written client offers / server-first frames / implicitly closed writers, and 160 / 6 000 broadcast rounds in which one prepared message is "
+                  "written for the first time by 2-12 goroutines at once on connections of mixed role/compression. Not a proof: sizes, buffer sizes and API interleavings outside the generated ones are not covered; one goroutine drives each in-memory session (the broadcast part: one per connection).",
     "level_note": "Trusts refws.Parser (written from RFC 6455 section 5 / RFC 7692 section 7), compress/flate for the independent inflate, encoding/json for the expected JSON text, "
                   "and crypto/sha1 for the accept key. Text payloads are generated as valid UTF-8. The -asan pass of the design is not part of these parts (canaries + checkptr are).",
     "parts": [
